@@ -5,7 +5,7 @@ independent std::map twin (and std::unordered_multimap for the wrapper) which is
 import os, re
 
 MS = [1, 2, 3, 4, 7, 15]
-GEN = ['gen_growcap.json', 'gen_arraybucket.json', 'gen_arraybucket_cnt.json', 'gen_arraybucket_s.json', 'gen_hashmultimap.json', 'gen_versioncheck.json', 'gen_versioncheck_a.json', 'gen_wrap_eq.json', 'gen_wrap_erase.json', 'gen_ab_copy.json', 'gen_ab_ops.json', 'gen_pairiterator.json', 'gen_removeif.json']
+GEN = ['gen_growcap.json', 'gen_arraybucket.json', 'gen_arraybucket_cnt.json', 'gen_arraybucket_s.json', 'gen_hashmultimap.json', 'gen_versioncheck.json', 'gen_versioncheck_a.json', 'gen_wrap_eq.json', 'gen_wrap_erase.json', 'gen_ab_copy.json', 'gen_ab_ops.json', 'gen_pairiterator.json', 'gen_removeif.json', 'gen_heaparray.json']
 BUCKETS = ['L.c', 'O8.c', 'O2.c', 'L.f', 'O8.f', 'O2.f']
 
 # ----------------------------------------------------------------------------- generators
